@@ -206,8 +206,12 @@ class PythonCryptoEndpoint(CryptoEndpoint, EndpointListener):
 
         try:
             if next_relay.rendezvous_relay:
+                this_relay = self.relays.get(next_relay.circuit_id)
+                if this_relay is None:
+                    # The two routes of a rendezvous link are removed one by one (inactivity, destroy).
+                    self.logger.warning("Dropping cell (other half of the rendezvous link is gone)")
+                    return
                 self.decrypt_cell(cell, FORWARD, next_relay.hop)
-                this_relay = self.relays[next_relay.circuit_id]
                 self.encrypt_cell(cell, BACKWARD, this_relay.hop)
                 cell.relay_early = False
             else:
